@@ -137,7 +137,7 @@ class yanny(OrderedDict):
             (word, remainder) = re.search(r'^"([^"]*)"\s*(.*)',
                                           string).groups()
         elif string[0] == '{':
-            (word, remainder) = re.search(r'^\{\s*([^}]*)\s*\}\s*(.*)',
+            (word, remainder) = re.search(r'^\{\s*([^}]*?)\s*\}\s*(.*)',
                                           string).groups()
         else:
             try:
